@@ -84,6 +84,10 @@ fn main() {
     let rest = &args[1..];
     let code = match id.as_str() {
         "C05" => go(props::c05::C05, rest),
+        "C06" => go(props::c06::C06, rest),
+        "C07" => go(props::c07::C07, rest),
+        "C09" => go(props::c09::C09, rest),
+        "C19" => go(props::c19::C19, rest),
         _ => {
             eprintln!("unknown property {}", id);
             2
